@@ -62,6 +62,7 @@ for _m in ["GET", "HEAD", "POST", "PUT", "DELETE", "CONNECT", "OPTIONS", "TRACE"
     CTORS[("Method", _m)] = (_m, None)
 CTORS.update({("Phase", "SendLine"): ("PLine", None), ("Phase", "SendHeaders"): ("PHeaders", "usize"), ("Phase", "SendBody"): ("PBody", None),
               ("Phase", "RecvResponse"): ("PRecvResponse", None), ("Phase", "RecvBody"): ("PRecvBody", None)})
+CTORS.update({("Status", "Complete"): ("HpComplete", "usize"), ("Status", "Partial"): ("HpPartial", None)})
 CTORS.update({("RedirectAuthHeaders", "Never"): ("Never", None), ("RedirectAuthHeaders", "SameHost"): ("SameHost", None)})
 ENUM_EQB = {"Dechunker": "dechunker_eqb", "Method": "method_eqb"}
 STRUCTS = {"Pos": ["index_in", "index_out"]}
@@ -261,6 +262,8 @@ class Tr(object):
                 if n == "None":
                     return "None"
                 raise Unsupported("unknown identifier %s" % n)
+            if "::".join(segs) in self.cfg.get("paths", {}):
+                return self.cfg["paths"]["::".join(segs)]
             if segs[-2] in ("usize", "u64") and segs[-1] == "MAX":
                 return "18446744073709551615"
             if segs[0] == "Error" and len(segs) == 2:
@@ -347,6 +350,8 @@ class Tr(object):
                     return b.fields[e[2]]
                 if b.kind == "val" and e[2] in ("0", "1"):
                     return "(%s %s)" % ("fst" if e[2] == "0" else "snd", b.coq)
+                if b.kind == "val" and e[2] in self.cfg.get("val_fields", {}):
+                    return "(%s %s)" % (self.cfg["val_fields"][e[2]], b.coq)
             raise Unsupported("field access .%s" % e[2])
         if k == "if":
             if e[3] is None:
@@ -402,7 +407,11 @@ class Tr(object):
         scrut = self.pure(e[1], env)
         arms = []
         for pat, body in e[2]:
-            pt, env2 = self.pat(pat, env, None)
+            self._sum_pat = self.cfg.get("sum_types", {}).get(self.ty_of(e[1], env))
+            try:
+                pt, env2 = self.pat(pat, env, None)
+            finally:
+                self._sum_pat = None
             arms.append("| %s => %s" % (pt, self.pure(body, env2)))
         return "(match %s with %s end)" % (scrut, " ".join(arms))
 
@@ -429,6 +438,11 @@ class Tr(object):
             return "(" + ", ".join(pts) + ")", env
         if k == "ppath":
             segs = p[1]
+            if getattr(self, "_sum_pat", None) and segs in (["Ok"], ["Err"]):
+                names = self._sum_pat
+                self._sum_pat = None
+                t, env = self.pat(p[2][0], env, None)
+                return "%s %s" % (names[0] if segs == ["Ok"] else names[1], t), env
             if getattr(self, "_res_pat", False) and segs in (["Ok"], ["Err"]):
                 self._res_pat = False
                 t, env = self.pat(p[2][0], env, None)
@@ -692,6 +706,11 @@ class Tr(object):
             return self.leaf_err(e[1][-1], env)
         if e[0] == "call" and e[1][0] == "path" and e[1][1][0] == "Error":
             return self.leaf_err(e[1][1][-1], env)
+        if e[0] == "call" and e[1][0] == "path" and len(e[1][1]) == 1 and e[1][1][0] in self.cfg.get("err_functions", []):
+            return self.leaf_err(self.pure(e, env), env)
+        if e[0] == "if" and e[3] is not None and not e[2][1] and not e[3][1] and e[2][2] is not None and e[3][2] is not None:
+            # Err(if c { E1 } else { E2 })
+            return "(if %s then %s else %s)" % (self.pure(e[1], env), self.err_of(e[2][2], env), self.err_of(e[3][2], env))
         raise Unsupported("error value")
 
     # ------------------------------------------------------------------ continuation-passing translation
@@ -802,19 +821,29 @@ class Tr(object):
             return (env["self"].fields[e[2]], "self." + e[2])
         return None
 
-    def cps_match(self, e, env, k, tail_mode=False):
+    def cps_match(self, e, env, k, tail_mode=False, _shared=False):
         place = self.place_of(e[1], env)
 
         is_res = self.ty_of(e[1], env) == "res"     # a value of the result monad (a substituted call of a modelled function)
+
+        if not tail_mode and not _shared and self.cfg.get("share_continuation") and (place is None or all(pt[0] in ("plit", "pwild") for pt, _b in e[2])):
+            # the rest of the function is bound once and called from every arm that falls through (instead of being copied into each)
+            kname, kv = self.fresh("kont"), self.fresh("kv")
+            rest = k(kv, env)
+            k = lambda v, env4: "%s %s" % (kname, v)
+            inner = self.cps_match(e, env, k, tail_mode=False, _shared=True)
+            return "let %s := (fun %s => %s) in %s" % (kname, kv, rest, inner)
 
         def go(scrut, env2):
             arms = []
             for pat, body in e[2]:
                 self._res_pat = is_res
+                self._sum_pat = self.cfg.get("sum_types", {}).get(self.ty_of(e[1], env))
                 try:
                     pt, env3 = self.pat(pat, env2, place)
                 finally:
                     self._res_pat = False
+                    self._sum_pat = None
                 if tail_mode:
                     bt = self.tail(body, env3)
                 else:
@@ -1337,6 +1366,9 @@ class Tr(object):
         lname = "%s_for%d" % (self.cfg["coq"], self.loop_no)
         lst = self.iter_base(e[2], env) if e[2][0] == "mcall" else self.pure(e[2], env)
         state = self.state_names(env)
+        if self.cfg.get("loop_state_assigned_only"):
+            # only what the body assigns is threaded (every local counts as assignable: see let)
+            state = [c for c in state if any(env[n].kind in ("val", "alias") and env[n].coq == c and self.assigned_in(e[3], n) for n in env["__order__"])]
         st_tuple = self.tup(state)
         pt, env2 = self.pat(e[1], env, None)
         used = set()
@@ -1553,6 +1585,25 @@ Definition set_header_list (added : list header) (k v : bytes) : res (list heade
   if negb (valid_header_name k && valid_header_value v) then Err BadHeader
   else if MAX_EXTRA_HEADERS <=? len added then Panic "util.rs: ArrayVec::push (extra headers)"
   else Ok (added ++ [(lower k, v)], tt).
+(* src/parser.rs works on what httparse returns: the outcome of parse() and the fields of the Response / Request it filled in.
+   The http builder keeps version, status (or method) and the fields added so far; body(()) fails on a name it does not accept
+   (Parser.builder_ok) and otherwise yields the model's response with the HeaderMap of those fields. *)
+Inductive hp_status := HpComplete (n : N) | HpPartial.
+Inductive hp_result := HpOk (s : hp_status) | HpErr (e : hperr).
+Definition hperr_is_too_many (e : hperr) : bool := match e with ETooManyHeaders => true | _ => false end.
+Definition hperr_into (e : hperr) : err := HttpParseFail.
+Definition status_from_u16 (v : N) : option N := if (100 <=? v) && (v <? 1000) then Some v else None.
+Definition method_from_bytes (m : bytes) : option bytes :=
+  if match m with [] => false | _ => forallb is_http_method_char m end then Some m else None.
+Definition builder_new {A : Type} (version : N) (x : A) : N * A * list header := (version, x, []).
+Definition builder_header {A : Type} (b : N * A * list header) (k v : bytes) : N * A * list header :=
+  let '(ve, x, hs) := b in (ve, x, hs ++ [(k, v)]).
+Definition resp_builder_body (b : N * N * list header) : option response :=
+  let '(ve, st, hs) := b in
+  if builder_ok hs then Some {| rs_version := ve; rs_status := st; rs_headers := hm_of_list hs |} else None.
+Definition req_builder_body (b : N * bytes * list header) : option prequest :=
+  let '(ve, m, hs) := b in
+  if builder_ok hs then Some {| pq_method := m; pq_version := ve; pq_headers := hm_of_list hs |} else None.
 """
 
 
@@ -1706,6 +1757,17 @@ def translate_skeleton(text, cfg, consts):
 # Flag functions of src/client/flow.rs: functions whose effect is on a few fields of `self.inner` (flags, the close-reason list) and
 # whose inputs can be named by a substitution (`self.inner.x` becomes the mutable parameter inner_x, the call of a parser that the
 # model has its own definition of becomes a parameter of the result monad).  Translated by the same translator as FUNCS2.
+_PARSER_SUBST = [(r"let mut headers = \[httparse::EMPTY_HEADER; N\];", ""), (r"let mut res = httparse::Response::new\(&mut headers\);", ""),
+                 (r"res\.parse\(input\)", "parse_result"), (r"e == httparse::Error::TooManyHeaders", "hperr_is_too_many(e)"),
+                 (r"e\.into\(\)", "hperr_into(e)"), (r"res\.version", "res_version"), (r"res\.code", "res_code"), (r"res\.headers", "res_headers"),
+                 (r"builder\.header\(", "builder_header(builder, ")]
+_PARSER_PARAMS = [("parse_result", "val", "hp_result", "hpres"), ("res_version", "val", "option N", None), ("res_code", "val", "option N", None),
+                  ("res_headers", "val", "list header", "list")]
+_PARSER_FUNCTIONS = {"hperr_is_too_many": "hperr_is_too_many", "hperr_into": "hperr_into", "StatusCode::from_u16": "status_from_u16",
+                     "Method::from_bytes": "method_from_bytes", "builder_new": "builder_new", "builder_header": "builder_header",
+                     "resp_builder_body": "resp_builder_body", "req_builder_body": "req_builder_body"}
+_PARSER_PATHS = {"Version::HTTP_10": "0", "Version::HTTP_11": "1"}
+
 FLOWFUNCS = [
     dict(coq="gen_try_read_100", file="src/client/flow.rs", impl=r"impl<B>\s+Flow<B,\s*Await100>", rust="try_read_100", errst=True,
          subst=[(r"try_parse_response::<0>\(input\)", "parsed"), (r"self\.inner\.", "inner_"), (r"response\.status\(\)", "response")],
@@ -1833,6 +1895,32 @@ FLOWFUNCS = [
                  ("headers", "val", "list header", None), ("phase", "mutval", "phase", "Phase"), ("w", "writer", "", None)],
          methods={"is_body": "is_body"}, loops={1: dict(fuel="3", panic="model: try_write_prelude out of fuel")},
          rust_ret="Result<(), Error>"),
+    # src/parser.rs: the bridge from httparse to the http types.  httparse's outcome and the fields it filled in are parameter values
+    # (the parser itself stays modelled: Httparse.v), the http builder is the model's reading of it (builder_* in Gen2.v's preamble);
+    # translated are the error mapping, Complete / Partial, the version and status conversions, which fields are copied and when the
+    # copy stops, and what is returned.
+    dict(coq="gen_try_parse_response", file="src/parser.rs", impl=None, rust="try_parse_response",
+         subst=_PARSER_SUBST + [(r"Response::builder\(\)\.version\(version\)\.status\(status\)", "builder_new(version, status)"),
+                (r"builder\s*\.body\(\(\)\)", "resp_builder_body(builder)")],
+         params=_PARSER_PARAMS, functions=_PARSER_FUNCTIONS, paths=_PARSER_PATHS, val_fields={"name": "fst", "value": "snd"},
+         sum_types={"hpres": ("HpOk", "HpErr")}, err_functions=["hperr_into"], share_continuation=True, loop_state_assigned_only=True, coq_types={"builder": "(N * N * list header)%type"},
+         rust_ret="Result<Option<(usize, Response<()>)>, Error>"),
+    dict(coq="gen_try_parse_partial_response", file="src/parser.rs", impl=None, rust="try_parse_partial_response",
+         subst=_PARSER_SUBST + [(r"Response::builder\(\)\.version\(version\)\.status\(status\)", "builder_new(version, status)"),
+                (r"builder\s*\.body\(\(\)\)", "resp_builder_body(builder)")],
+         params=_PARSER_PARAMS, functions=_PARSER_FUNCTIONS, paths=_PARSER_PATHS, val_fields={"name": "fst", "value": "snd"},
+         sum_types={"hpres": ("HpOk", "HpErr")}, err_functions=["hperr_into"], share_continuation=True, loop_state_assigned_only=True, coq_types={"builder": "(N * N * list header)%type"},
+         rust_ret="Result<Option<Response<()>>, Error>"),
+    dict(coq="gen_try_parse_request", file="src/parser.rs", impl=None, rust="try_parse_request",
+         subst=[(a.replace("res", "req").replace("Response", "Request"), b.replace("res_", "req_")) for a, b in _PARSER_SUBST if "code" not in a] + [
+                (r"req\.method", "req_method"),
+                (r"Request::builder\(\)\.version\(version\)\.method\(method\)", "builder_new(version, method)"),
+                (r"builder\s*\.body\(\(\)\)", "req_builder_body(builder)")],
+         params=[("parse_result", "val", "hp_result", "hpres"), ("req_version", "val", "option N", None), ("req_method", "val", "option bytes", None),
+                 ("req_headers", "val", "list header", "list")],
+         functions=_PARSER_FUNCTIONS, paths=_PARSER_PATHS, val_fields={"name": "fst", "value": "snd"},
+         sum_types={"hpres": ("HpOk", "HpErr")}, err_functions=["hperr_into"], share_continuation=True, loop_state_assigned_only=True, coq_types={"builder": "(N * bytes * list header)%type"},
+         rust_ret="Result<Option<(usize, Request<()>)>, Error>"),
     # src/ext.rs: HeaderIterExt::has (the test behind `Connection: close` and `Expect: 100-continue`): some field with that name has that value
     dict(coq="gen_headers_has", file="src/ext.rs", impl=None, rust="has", kind="plain", bytes_vars=["key", "value"],
          subst=[(r"self\s*\.filter", "headers.iter().filter")],
@@ -1907,7 +1995,7 @@ def translate_custom(text, cfg, known_all=None, err_mode=False):
     tr = Tr(cfg, {}, known)
     tr.info = info
     tr.err_mode = err_mode
-    tr.types = {}
+    tr.types = dict(cfg.get("coq_types", {}))
     env = {"__order__": []}
     binders = []
     for n, k, t, ty in cfg["params"]:
